@@ -17,8 +17,9 @@ import traceback
 from . import extract, kani_run, registry, unit as unitmod, verus_run
 
 VERIF = unitmod.VERIF
-EVID_DIR = os.path.join(VERIF, "evidence")
-REPLAY_DIR = os.path.join(VERIF, "replay")
+# selftest runs redirect their output so that committed evidence always comes from /repo itself
+EVID_DIR = os.environ.get("VERIF_EVID_DIR") or os.path.join(VERIF, "evidence")
+REPLAY_DIR = os.environ.get("VERIF_REPLAY_DIR") or os.path.join(VERIF, "replay")
 KNOWN = os.path.join(VERIF, "known_findings.json")
 
 
